@@ -250,6 +250,7 @@ def correspond(ctx):
     dis = []
     exprs, cases = [], []
     feats = {}
+    precision_limited = 0
     for k in range(count):
         p = gen_problem(rng, ctx.quick(), k)
         for ft in p["features"]:
@@ -259,6 +260,15 @@ def correspond(ctx):
             ctx.fail(msg, problem=p)
             continue
         msg = oracle(d)
+        if msg and p.get("precision", 1e-8) > 1e-10:
+            # the oracle's tolerances assume a converged solve; PCG stops at a RELATIVE residual of Precision, which on
+            # ill-scaled rows (conductor ties) leaves errors above them.  A deviation that disappears when the same
+            # problem is solved with a tighter Precision is the solver's stopping tolerance, not a wrong equation.
+            p2 = dict(p, precision=1e-11)
+            d2, msg2 = run_case(ctx, 10000 + k, p2)
+            if not msg2 and not oracle(d2):
+                precision_limited += 1
+                msg = None
         if msg:
             ctx.fail("esolver: " + msg, problem=p)
         if d["nn"] <= (700 if ctx.quick() else 1500):
@@ -302,6 +312,7 @@ def correspond(ctx):
     cov["samples"] = [dict(features=c[0]["features"], nodes=c[1]["nn"], elements=c[1]["ne"]) for c in cases[:3]]
     cov["values_compared"] = tot
     cov["bit_identical"] = nb
+    cov["oracle_deviations_gone_with_precision_1e-11"] = precision_limited
     cov["mesh_sizes"] = [c[1]["nn"] for c in cases]
     return dis
 
